@@ -95,25 +95,27 @@ theorem chain_true_shape (re : Bool) (r k : Option Err) (c : K) (hc : re = false
       exact ih
 
 /-- the steps of `convert_to_equivalent` across dimensions when the `out=` promotion succeeds, spelled out -/
-theorem cte_steps_across (N : NumpyFacts) (P : DtypeRules) (pre : Prefixes K) (t : Lut K) (T : EmTable K)
+theorem cte_steps_across (fl : CtuFlags) (N : NumpyFacts) (P : DtypeRules) (pre : Prefixes K) (t : Lut K) (T : EmTable K)
     (reg : List EquivRec) (a : Arr K) (c : EquivCall K) (cu : UnitV K) (e : EquivRec) (f : Formula) (md : Dtype)
     (h1 : c.convUnit = .ok cu) (h2 : (a.unit.dim == cu.dim) = false) (h3 : findEquiv reg c.name = some e)
     (h4 : e.dims.contains a.unit.dim = true) (h5 : e.convert .inplace a.unit.dim cu.dim = .ok (some f))
-    (h6 : acceptsParams reg (some c.name) c.kwargs = true) (h7 : outPromote N P a.dtype = .ok md) :
-    convertToEquivalentSteps N P pre t T reg a c =
+    (h6 : acceptsParams reg (some c.name) c.kwargs = true) (h7 : outPromote N P a.dtype = .ok md)
+    (hw : a.writeable = true) :
+    convertToEquivalentSteps fl N P pre t T reg a c =
       [.check Tag.mkUnit none, .check Tag.registry none, .check Tag.equivInplace none, .check Tag.hasEquiv none,
        .check Tag.callConvert none] ++
       ((if md == a.dtype then []
-        else [.eff "W:out.dtype" (.retype md), .check "W:copyto(out)" (if a.writeable then none else some .ValueError),
+        else (if fl.outRoGuard then [.check "F:raise:ValueError" (if a.writeable then none else some .ValueError)] else []) ++
+             [.eff "W:out.dtype" (.retype md), .check "W:copyto(out)" (if a.writeable then none else some .ValueError),
               .eff "W:copyto(out)" (.castCopy md)]) ++
        chainSteps c.reenters (offsetRefusal c.powRefuses a.unit f) (chainKernelRefuses N a.writeable md) c.selfCoeff c.depth
           (midUnit cu.dim) true (inplaceOps e a.unit.dim cu.dim)
         ++ (.check Tag.callCtu none ::
-            convertToUnitsSteps N P pre t T { a with unit := midUnit cu.dim, dtype := md } (.ok cu))
+            convertToUnitsSteps fl N P pre t T { a with unit := midUnit cu.dim, dtype := md } (.ok cu))
         ++ [.eff Tag.setName .clearName]) := by
   unfold convertToEquivalentSteps
-  simp only [h1, h2, h3, h4, h5, h6, h7, Bool.false_eq_true, if_false, Bool.not_true, beq_self_eq_true, if_true,
-    List.cons_append, List.nil_append, List.append_assoc]
+  simp only [h1, h2, h3, h4, h5, h6, h7, hw, Bool.false_eq_true, if_false, Bool.not_true, beq_self_eq_true, if_true,
+    Bool.and_false, List.cons_append, List.nil_append, List.append_assoc]
 
 /-- the final `convert_to_units` of `convert_to_equivalent` starts from the coherent unit of the
     requested dimension: its dimension check cannot fail -/
